@@ -61,7 +61,12 @@ c.finish(
         "exercised on special and random float64 values, not proved",
         "limits: strings < maxStringBytes, names < maxNameBytes, arrays <= maxArrayLen (one transient element beyond the limit while a "
         "reference is being read, Wf.arr_fits), dictionaries <= maxDictLen written entries, nesting < maxScannerNestDepth "
-        "(one level is used by the wrapper array of the hook VerifParseObjects)",
+        "(one level is used by the wrapper array of the hook VerifParseObjects); since F60-F62 the writer refuses what lies "
+        "beyond them (Wf.fmt_ok, theorem format_accepts_iff_within_limits; the writer reads the same limit variables as "
+        "the reader, so VerifSetLimits shrinks both - the depth limit is a constant)",
+        "nums_fit: number tokens fit ReadNumber's buffer of maxNameBytes - every int64 and finite float64 does under the "
+        "real constant (4096); under shrunk limits the writer accepts a number the reader refuses (artefact of shrinking, "
+        "hypothesis of format_ok_roundtrip)",
         "OptDictTypes / OptTrimStandardFonts / OptTextStringUtf8 / OptContentStream do not act on native values; the "
         "harness checks all 32 combinations on the implementation",
     ],
